@@ -186,4 +186,36 @@ def reachableWrites (a : Analysis) : List Item :=
     | .write _ => true
     | _ => false))).map (·.1)
 
+/-- appends reachable from the given entries whose result may alias a field's backing array -/
+def reachableAliasAppends (a : Analysis) : List Item :=
+  (a.ann.filter (fun (it, _) => (ctxGet a.must it.fn).isSome && (match it.op with
+    | .aliasAppend _ => true
+    | _ => false))).map (·.1)
+
+/-- every lock acquisition is panic-safe: released by a `defer` that follows it immediately, or
+    nothing is called between the acquisition and its release (so no panic can leave it held) -/
+def panicSafeFrom : List Item → Bool
+  | [] => true
+  | it :: rest =>
+    (match it.op with
+     | .acq l _ =>
+       (match rest with
+        | nx :: _ => (match nx.op with
+          | .deferRel l' _ => l == l'
+          | _ => false)
+        | [] => false) ||
+       -- no call before the matching release
+       ((rest.takeWhile (fun x => match x.op with
+          | .rel l' _ => l' != l
+          | _ => true)).all (fun x => match x.op with
+          | .call _ => false
+          | _ => true) &&
+        rest.any (fun x => match x.op with
+          | .rel l' _ => l' == l
+          | _ => false))
+     | _ => true) && panicSafeFrom rest
+
+def panicSafe (nFns : Nat) (items : List Item) : Bool :=
+  (List.range nFns).all (fun f => panicSafeFrom (itemsOf items f))
+
 end Restful.Conc
